@@ -1,7 +1,10 @@
 //! Shared machinery of the grin runtime-monitoring harness.
 pub mod ctx;
+pub mod ledger;
 pub mod monitor;
 pub mod prng;
+pub mod refmmr;
+pub mod snapshot;
 pub mod world;
 
 pub use ctx::{Run, Scratch, Tier};
